@@ -36,13 +36,51 @@ def T(tier, q, t):
     return q if tier == "quick" else t
 
 
+ALLPORTS = list(range(65536))
+BPORTS = [0, 1, 2, 126, 127, 128, 129, 254, 255, 256, 257, 511, 512, 1000, 30303, 32767, 32768, 65279, 65280, 65534, 65535]
+
 DRIVERS = {
-    "auth": lambda rng, tier: gen.gen_auth(rng, T(tier, 6, 60), sweep_stride=T(tier, 3, 1)),
+    # independently signed records and every tamper (bit flips, deletions, truncations, field-level)
+    "auth": lambda rng, tier: gen.gen_auth(rng, T(tier, 16, 160), sweep_stride=T(tier, 2, 1)),
+    "auth_light": lambda rng, tier: gen.gen_auth(rng, T(tier, 4, 30), sweep_stride=T(tier, 8, 3)),
+    "valid": lambda rng, tier: gen.gen_valid(rng, T(tier, 120, 1500), full_every=T(tier, 3, 3)),
+    "struct": lambda rng, tier: gen.gen_struct(rng, T(tier, 40, 500)),
+    "prefix": lambda rng, tier: gen.gen_prefix(rng, T(tier, 20, 250)),
+    "text": lambda rng, tier: gen.gen_text(rng, T(tier, 25, 300)),
+    "hist": lambda rng, tier: gen.gen_hist(rng, T(tier, 160, 2400), length=T(tier, (8, 30), (10, 60))),
+    "hist_long": lambda rng, tier: gen.gen_hist(rng, T(tier, 8, 64), length=T(tier, (150, 200), (300, 400)), full_every=25),
+    "hist_full": lambda rng, tier: gen.gen_hist(rng, T(tier, 48, 600), full_every=1),
+    "seq": lambda rng, tier: gen.gen_seq(rng, calls_per=T(tier, 8, None)),
+    "size": lambda rng, tier: gen.gen_size(rng, per_size=T(tier, 3, 24)),
+    "typed_q": lambda rng, tier: gen.gen_typed(rng, ALLPORTS, routes=("setter",), keys=["tcp"]) if tier == "quick"
+    else gen.gen_typed(rng, ALLPORTS),
+    "typed_b": lambda rng, tier: gen.gen_typed(rng, BPORTS, kts=("k256", "libsecp", "ed", "comb"), extra=T(tier, 30, 300)),
+    "eq": lambda rng, tier: gen.gen_eq(rng, T(tier, 40, 600)),
+    "cross": lambda rng, tier: gen.gen_cross(rng, T(tier, 20, 300)),
+    "nid": lambda rng, tier: gen.gen_nid(rng, T(tier, 12, 200)),
+    "nodeid": lambda rng, tier: gen.gen_nodeid(rng, T(tier, 40, 2000)),
+    "keys": lambda rng, tier: gen.gen_keys(rng, T(tier, 60, 3000)),
 }
 
 # property -> drivers, bounded models
 CHECKS = {
-    "C01": {"drivers": ["auth"], "models": []},
+    "C01": {"drivers": ["auth", "valid"], "models": []},
+    "C02": {"drivers": ["struct", "valid"], "models": []},
+    "C03": {"drivers": ["hist_full", "auth_light", "struct", "text", "prefix", "nodeid", "keys"], "models": []},
+    "C04": {"drivers": ["valid", "struct", "hist_full"], "models": []},
+    "C05": {"drivers": ["hist", "hist_long", "size"], "models": []},
+    "C06": {"drivers": ["hist", "size", "seq"], "models": []},
+    "C07": {"drivers": ["seq", "hist"], "models": []},
+    "C08": {"drivers": ["hist", "hist_long", "seq"], "models": []},
+    "C09": {"drivers": ["size", "hist", "struct"], "models": []},
+    "C10": {"drivers": ["nid", "valid", "hist", "cross"], "models": []},
+    "C11": {"drivers": ["cross", "struct", "auth_light", "valid"], "models": []},
+    "C12": {"drivers": ["text", "hist_full"], "models": []},
+    "C13": {"drivers": ["prefix", "valid"], "models": []},
+    "C14": {"drivers": ["typed_q", "typed_b", "hist_full"], "models": []},
+    "C15": {"drivers": ["eq", "hist"], "models": []},
+    "C16": {"drivers": ["nodeid"], "models": []},
+    "C17": {"drivers": ["keys"], "models": []},
 }
 
 
